@@ -394,6 +394,8 @@ def apply_rpc(serv, holder, rpc):
                                     infeasible_reason='why' if infeasible and tid % 2 else '')   # a reason is optional
       if final:
         req.final_measurement.CopyFrom(mk_measurement(final))
+      elif tid % 3 == 0:
+        req.final_measurement.step_count = 7     # a final measurement that is present but carries no metric is no measurement
       r = serv.CompleteTrial(req)
       return ('Done', 'RpTrial', c_trial(r))
     if kind == 'StopTrial':
@@ -838,6 +840,24 @@ def correspond(rep, pid, tag, runs, shard=60):
     k = C.run_cases(pid, tag + 'loc', HDR + 'Definition loc (c : svc_case) := Nat.eqb (first_bad (fst c) init_state 0) 9999.\n', [cases[i]], 'loc')
     msg = 'correspondence service model vs code (%s): %d of %d sequences disagree; first: %r' % (
         tag, len(bad), len(runs), {'label': label, 'steps': [(s[0], s[1]) for s in steps]})
+    if pid == 'C01':
+      # C01's last clause IS the comparison with the sequential reference model: a sequence on which a RESPONSE or the final
+      # STORED STATE differs from the model (the datastore-call trace ignored - a rewrite may change it harmlessly) is a failing
+      # input of the property, and is reported as one.
+      obs_hdr = HDR + ('Fixpoint seq_obs (steps : list svc_step) (s : state) : bool * state :=\n'
+                       '  match steps with [] => (true, s) | (r, po, want, wtr) :: rest =>\n'
+                       '    let \'(s\', o, tr) := run (handler r) s po [] in\n'
+                       '    if outcome_eqb o want then seq_obs rest s\' else (false, s\') end.\n'
+                       'Definition obs_ok (c : svc_case) := let \'(ok, s) := seq_obs (fst c) init_state in\n'
+                       '  ok && snapshot_eqb (snapshot CLIENTS OWNERS s) (snd c).\n')
+      sub = [cases[i] for i in bad[:20]]
+      obs_bad = C.run_cases(pid, tag + 'obs', obs_hdr, sub, 'obs_ok')
+      for j in obs_bad[:3]:
+        label, steps, snap = runs[bad[j]]
+        rep.violation('a response or the final stored data differ from the sequential reference model of the documented API '
+                      '(coq/Model/Service.v) on this call sequence [%s]' % label.split('#')[0],
+                      {'backend': label.split('#')[0], 'sequence': [s[0] for s in steps], 'outcomes': [s[1] for s in steps]})
+        rep.corr_concrete = True
   return msg, bad
 
 
